@@ -60,9 +60,26 @@ structure Item where
   ok : Bool
   deriving Repr, DecidableEq
 
+/-- an address: localpart, domainpart, resourcepart (`loc`/`res` 0 = the part is absent; the
+numbers are indices into a universe of spellings, equal numbers = `jid.JID.Equal`) -/
+structure Addr where
+  loc : Nat
+  dom : Nat
+  res : Nat
+  deriving Repr, DecidableEq
+
+/-- the `from` attribute of a stream header the peer sends, relative to the address the session
+expects its peer to have (the negotiator only compares the two) -/
+inductive HFrom | absent | same | differ
+  deriving Repr, DecidableEq
+
 /-- what the peer can send at the top level of the stream -/
 inductive Unit
+  /-- a stream header whose addresses are the expected ones (`from` the remote address, `to` the
+  session's own address or absent); `ok`: everything else about it is acceptable -/
   | hdr (ok : Bool)
+  /-- an otherwise acceptable stream header with addresses of the peer's choosing -/
+  | hdrA (frm : HFrom) (to : Option Addr)
   | list (items : List Item)
   | proceed | failure | streamErr | tlsOther | foreign | space | malformed
   deriving Repr, DecidableEq
@@ -184,8 +201,9 @@ structure Sess where
   negotiated : List Nat
   doRestart : Bool
   first : Bool
-  /-- domain of the session's own address -/
-  domain : Nat
+  /-- `Session.in.Info.To`, what `LocalAddr()` returns: the session's own address — assigned from
+  every stream header the negotiator accepts (`*in = newIn`) -/
+  laddr : Addr
   /-- the configuration variable closed over by the STARTTLS feature value (`none`: nil) -/
   captured : Option Name
   /-- server name of the `tls.Config` handed to `tls.Client` -/
@@ -259,6 +277,24 @@ def pull (s : Sess) : Res Unit :=
 
 /-! ### negotiator.go: header exchange -/
 
+/-- negotiator.go, initiating branch, after `intstream.Expect` accepted the header's shape: the
+header's `from` must be the remote address (`location := s.RemoteAddr()`; an absent attribute
+leaves the copied value in place), its `to` must be absent or the session's own address
+(`origin := s.LocalAddr()`, read anew on every call); only then the header replaces the stream
+info (`*in = newIn`) — `LocalAddr()` is what the header said from then on. -/
+def hdrAccepted (frm : HFrom) (to : Option Addr) (own : Addr) : Bool :=
+  frm != .differ && (to == none || to == some own)
+
+/-- `*in = newIn`: an attribute that is absent leaves the value copied from the old stream info -/
+def infoTo (to : Option Addr) (old : Addr) : Addr :=
+  match to with
+  | some a => a
+  | none => old
+
+def acceptHdr (frm : HFrom) (to : Option Addr) (s : Sess) : Res PUnit :=
+  if hdrAccepted frm to s.laddr then .ok () { s with laddr := infoTo to s.laddr }
+  else .stop (.err .proto) s
+
 /-- `intstream.Expect`: white space is skipped, then a stream header must come -/
 def expectHdr : Nat → Sess → Res PUnit
   | 0, s => .stop .fuel s
@@ -269,6 +305,7 @@ def expectHdr : Nat → Sess → Res PUnit
       match u with
       | .space => expectHdr n s'
       | .hdr true => .ok () s'
+      | .hdrA f t => acceptHdr f t s'
       -- (a `<stream:error/>` in place of the header cannot be recognised: its prefix is
       -- not declared yet, so it is just an unexpected element)
       | .malformed => .stop (.err .read) s'
@@ -334,10 +371,11 @@ def negotiateName (captured : Option Name) (domain : Nat) : Option Name × Name 
   | some n => (captured, n)
   | none => (captured, .dom domain)
 
-/-- the TLS configuration is chosen when `Negotiate` is entered -/
+/-- the TLS configuration is chosen when `Negotiate` is entered: the default one names
+`session.LocalAddr().Domain()` — the address as it is in the session at that moment -/
 def chooseConfig (s : Sess) : Sess :=
-  { s with captured := (negotiateName s.captured s.domain).1,
-           sni := some (negotiateName s.captured s.domain).2 }
+  { s with captured := (negotiateName s.captured s.laddr.dom).1,
+           sni := some (negotiateName s.captured s.laddr.dom).2 }
 
 /-- one `Negotiate` call -/
 def negotiateOne (c : Cached) (res : NegRes) (s : Sess) : Res (Mask × Rw) :=
@@ -496,11 +534,16 @@ structure Input where
   prot : List PItem
   oracle : List (Nat × NegRes)
 
+/-- the `origin` argument of `NewSession`: `user@domain`, or the bare domain of a server on a
+server-to-server stream -/
+def ownAddr (env : Env) (state0 : Mask) : Addr :=
+  ⟨if has state0 S2S then 0 else 1, env.domain, 0⟩
+
 def init (env : Env) (state0 : Mask) (i : Input) : Sess :=
   { state := if env.conn.startsSecure then state0 ||| Secure else state0,
     tls := env.conn.startsSecure, hs := false, buf := [], clear := i.clear, prot := i.prot,
     oracle := i.oracle, negotiated := [], doRestart := true, first := true,
-    domain := env.domain, captured := env.captured, sni := env.conn.name, features := [], trace := [] }
+    laddr := ownAddr env state0, captured := env.captured, sni := env.conn.name, features := [], trace := [] }
 
 /-- a whole `NewSession` call of an initiator; the trace is returned oldest first -/
 def run (cfg : Cfg) (env : Env) (state0 : Mask) (i : Input) (fuel : Nat) : List Ev × Outcome :=
@@ -513,6 +556,11 @@ def run (cfg : Cfg) (env : Env) (state0 : Mask) (i : Input) (fuel : Nat) : List 
 def capturedAfter (cfg : Cfg) (env : Env) (state0 : Mask) (i : Input) (fuel : Nat) : Option Name :=
   if state0 &&& unmodelledBits != 0 then env.captured
   else (loop cfg fuel false (init env state0 i)).1.captured
+
+/-- what `Session.LocalAddr()` returns after the call (on a session or after an error) -/
+def localAfter (cfg : Cfg) (env : Env) (state0 : Mask) (i : Input) (fuel : Nat) : Addr :=
+  if state0 &&& unmodelledBits != 0 then ownAddr env state0
+  else (loop cfg fuel false (init env state0 i)).1.laddr
 
 /-- what `Session.Feature` reports after the call (on a session or after an error) -/
 def featuresAfter (cfg : Cfg) (env : Env) (state0 : Mask) (i : Input) (fuel : Nat) : List (Nat × Bool) :=
